@@ -13,6 +13,7 @@ from mc.termcheck import short
 from mc.terms import build, to_source
 
 PROPERTY = "C11"
+PAYLOAD_SEEDS = {"thorough": [0, 1, 2, 3]}  # the thorough tier repeats the whole enumeration for four payload seeds
 ASSUMPTIONS = [
     "cholesky inputs are Hermitian positive definite, plu inputs non-singular, cond <= ~1e3",
     "structure is asserted only where the property asserts it: Kronecker / BlockDiag input gives Kronecker / BlockDiag factors with the "
